@@ -141,3 +141,63 @@ Proof.
   rewrite (multi_key_count (log s) (t_i (committed s)) (t_tc (committed s)) keys_tc A Btc).
   f_equal. apply map_ext. intros io. unfold entries_of. destruct (log_find (log s) (snd io)); [apply map_length|reflexivity].
 Qed.
+
+(* ---------- distinct keys of an event = distinct (letter, padded value) pairs of its indexable tags ---------- *)
+Lemma len_pad182 v : len (pad182 v) = PADLEN.
+Proof.
+  unfold pad182. destruct (N.leb_spec (len v) PADLEN) as [H|H].
+  - rewrite len_app, len_repeat. lia.
+  - rewrite len_take. lia.
+Qed.
+
+Lemma key_tc_inj c v c' v' t id : key_tc c v t id = key_tc c' v' t id -> c = c' /\ pad182 v = pad182 v'.
+Proof.
+  unfold key_tc. cbn [app]. intros E. injection E as Ec E. split; [exact Ec|].
+  assert (L : length (pad182 v) = length (pad182 v')).
+  { pose proof (len_pad182 v) as A. pose proof (len_pad182 v') as B. unfold len in A, B. lia. }
+  revert L E. generalize (pad182 v) (pad182 v') (rev_time t ++ id). clear.
+  intros l1. induction l1 as [|x l1 IH]; intros [|y l2] R L E; cbn [length app] in *; try lia; [reflexivity|].
+  injection E as -> E. f_equal. apply (IH l2 R); [lia|exact E].
+Qed.
+
+Lemma nodup_map_length_eq {A B C} (decB : forall x y : B, {x = y} + {x <> y}) (decC : forall x y : C, {x = y} + {x <> y})
+  (f : A -> B) (g : A -> C) (l : list A) :
+  (forall x y, In x l -> In y l -> (f x = f y <-> g x = g y)) ->
+  length (nodup decB (map f l)) = length (nodup decC (map g l)).
+Proof.
+  induction l as [|a r IH]; intros H; cbn [map nodup]; [reflexivity|].
+  assert (Hr : forall x y, In x r -> In y r -> (f x = f y <-> g x = g y)) by (intros x y Hx Hy; apply H; right; assumption).
+  assert (Hin : In (f a) (map f r) <-> In (g a) (map g r)).
+  { split; intros Hi; apply in_map_iff in Hi; destruct Hi as [y [E Hy]]; apply in_map_iff; exists y; (split; [|exact Hy]).
+    - apply (H y a (or_intror Hy) (or_introl eq_refl)). exact E.
+    - apply (H y a (or_intror Hy) (or_introl eq_refl)). exact E. }
+  destruct (in_dec decB (f a) (map f r)) as [I|I], (in_dec decC (g a) (map g r)) as [J|J]; try tauto.
+  cbn [length]. f_equal. apply IH; exact Hr.
+Qed.
+
+Definition lv_eq_dec : forall a b : N * bytes, {a = b} + {a <> b}.
+Proof. decide equality; [apply bytes_eq_dec | apply N.eq_dec]. Defined.
+
+(* the pairs the tag index distinguishes: the letter and the value padded or cut to 182 bytes *)
+Definition padded_pairs (e : aevent) : list (N * bytes) :=
+  map (fun lv : N * bytes => (fst lv, pad182 (snd lv))) (indexable_tags (e_tags e)).
+
+Theorem distinct_keys_are_distinct_padded_pairs e :
+  length (nodup bytes_eq_dec (keys_tc e)) = length (nodup lv_eq_dec (padded_pairs e)).
+Proof.
+  unfold keys_tc, padded_pairs. apply nodup_map_length_eq. intros [c v] [c' v'] _ _. cbn [fst snd]. split.
+  - intros E. destruct (key_tc_inj _ _ _ _ _ _ E) as [-> ->]. reflexivity.
+  - intros [= -> E]. unfold key_tc. rewrite E. reflexivity.
+Qed.
+
+Corollary tag_index_count_in_padded_pairs ops names :
+  ops_wf ops -> let s := c_run ops (db_init names) in
+  length (t_tc (committed s))
+  = list_sum (map (fun io => match log_find (log s) (snd io) with
+                             | Some e => length (nodup lv_eq_dec (padded_pairs e))
+                             | None => 0%nat
+                             end) (t_i (committed s))).
+Proof.
+  intros Hops s. unfold s. rewrite (tag_index_count_formula ops names Hops). f_equal. apply map_ext. intros io.
+  destruct (log_find _ (snd io)); [apply distinct_keys_are_distinct_padded_pairs|reflexivity].
+Qed.
